@@ -24,7 +24,7 @@ RULE = ("the whole configuration lattice is enumerated: {TripleStream,QuadStream
         "points also with the frames gathered in a list before being written; plus two flat_stream_to_file calls that share one "
         "options object and overlap (the inner call made from inside the outer call's input generator); plus the store/sink entry "
         "points with namespace declarations on (1 or 6 bindings) x frame size {1,3,5,12,250}; explicit flows also handed over as "
-        "copy.copy(flow) and inside a deep-copied options object; every entry point x framing x frame size {1,250} with lookup "
+        "copy.copy(flow) and inside a deep-copied options object; the same options object and flow instance used for a second file after a first complete one; every entry point x framing x frame size {1,250} with lookup "
         "tables smaller than / equal to / larger than what one statement of the input needs (3 prefixes or 2 datatypes at once, "
         "from the first statement on)} x inputs of "
         "1, 3, 5 statements with fresh terms and 4, 6 statements re-using terms (single-row statements). Oracle for every configuration that returns without raising: every stream the entry point "
@@ -125,6 +125,9 @@ def enumerate_configs(tier: str):
                 c = {"entry": ename, "integration": integ, "physical": phys, "arity": arity, "logical": logical,
                      "delimited": delimited, "frame_size": fs, "flow": fk, "flow_logical": fl, "n": n, "collect": False}
                 yield c
+                if n == 3 and ename != "g_stream_frames_gen":
+                    # ... or the very same options object (and flow instance) is used for a second file
+                    yield dict(c, second_use=True)
                 if fk != "inferred" and n == 3:
                     # the flow reaches the stream as a COPY: copy.copy(flow), or a deep copy of an options template
                     yield dict(c, flow_via="copy")
@@ -243,40 +246,48 @@ def run_config(c: dict) -> dict:
             elif c.get("flow_via") == "deepcopy-options":
                 import copy
                 options = copy.deepcopy(options)
-            cfg = {"integration": c["integration"], "physical": c["physical"]}
-            write = write_delimited if c["delimited"] else write_single
-            e = c["entry"]
-            if e == "g_stream_frames_sink":
-                stream = pj.make_stream(cfg, options)
-                for fr in _maybe_list(gser.stream_frames(stream, pj.generic_sink_of(stmts, binds)), c):
-                    write(fr, out)
-            elif e == "g_stream_frames_gen":
-                stream = pj.make_stream(cfg, options)
-                for fr in _maybe_list(gser.stream_frames(stream, (T.stmt_to_generic(s) for s in stmts)), c):
-                    write(fr, out)
-            elif e == "g_flat_to_file":
-                gser.flat_stream_to_file((T.stmt_to_generic(s) for s in stmts), out, options=None if c.get("options_how") == "none" else options)
-            elif e == "g_grouped_to_file":
-                gser.grouped_stream_to_file((s for s in [pj.generic_sink_of(stmts, binds)]), out, options=options)
-            elif e == "r_serialize_stream":
-                stream = pj.make_stream(cfg, options)
-                store = pj.rdflib_store_of(stmts, binds, dataset=c["arity"] == 4, empty_graphs=eg)
-                store.serialize(out, format="jelly", stream=stream, options=options)
-            elif e == "r_serialize_options":
-                store = pj.rdflib_store_of(stmts, binds, dataset=c["arity"] == 4, empty_graphs=eg)
-                store.serialize(out, format="jelly", options=options)
-            elif e == "r_flat_to_file":
-                conv = (lambda st: tuple(T.stmt_to_rdflib(st))) if c.get("plain_tuples") else T.stmt_to_rdflib
-                rser.flat_stream_to_file((conv(s) for s in stmts), out, options=None if c.get("options_how") == "none" else options)
-            elif e == "r_grouped_to_file":
-                store = pj.rdflib_store_of(stmts, binds, dataset=c["arity"] == 4, empty_graphs=eg)
-                rser.grouped_stream_to_file((s for s in [store]), out, options=options)
-            elif e == "r_stream_frames_gen":
-                stream = pj.make_stream(cfg, options)
-                for fr in _maybe_list(rser.stream_frames(stream, (T.stmt_to_rdflib(s) for s in stmts)), c):
-                    write(fr, out)
-            else:
-                raise ValueError(e)
+            def emit(out):
+                cfg = {"integration": c["integration"], "physical": c["physical"]}
+                write = write_delimited if c["delimited"] else write_single
+                e = c["entry"]
+                if e == "g_stream_frames_sink":
+                    stream = pj.make_stream(cfg, options)
+                    for fr in _maybe_list(gser.stream_frames(stream, pj.generic_sink_of(stmts, binds)), c):
+                        write(fr, out)
+                elif e == "g_stream_frames_gen":
+                    stream = pj.make_stream(cfg, options)
+                    for fr in _maybe_list(gser.stream_frames(stream, (T.stmt_to_generic(s) for s in stmts)), c):
+                        write(fr, out)
+                elif e == "g_flat_to_file":
+                    gser.flat_stream_to_file((T.stmt_to_generic(s) for s in stmts), out, options=None if c.get("options_how") == "none" else options)
+                elif e == "g_grouped_to_file":
+                    gser.grouped_stream_to_file((s for s in [pj.generic_sink_of(stmts, binds)]), out, options=options)
+                elif e == "r_serialize_stream":
+                    stream = pj.make_stream(cfg, options)
+                    store = pj.rdflib_store_of(stmts, binds, dataset=c["arity"] == 4, empty_graphs=eg)
+                    store.serialize(out, format="jelly", stream=stream, options=options)
+                elif e == "r_serialize_options":
+                    store = pj.rdflib_store_of(stmts, binds, dataset=c["arity"] == 4, empty_graphs=eg)
+                    store.serialize(out, format="jelly", options=options)
+                elif e == "r_flat_to_file":
+                    conv = (lambda st: tuple(T.stmt_to_rdflib(st))) if c.get("plain_tuples") else T.stmt_to_rdflib
+                    rser.flat_stream_to_file((conv(s) for s in stmts), out, options=None if c.get("options_how") == "none" else options)
+                elif e == "r_grouped_to_file":
+                    store = pj.rdflib_store_of(stmts, binds, dataset=c["arity"] == 4, empty_graphs=eg)
+                    rser.grouped_stream_to_file((s for s in [store]), out, options=options)
+                elif e == "r_stream_frames_gen":
+                    stream = pj.make_stream(cfg, options)
+                    for fr in _maybe_list(rser.stream_frames(stream, (T.stmt_to_rdflib(s) for s in stmts)), c):
+                        write(fr, out)
+                else:
+                    raise ValueError(e)
+
+            if c.get("second_use"):
+                # the caller's options object - and with it the explicit flow INSTANCE - was already used for an earlier,
+                # complete serialization; this is the second file written with it
+                emit(io.BytesIO())
+                monitors.registry_clear()
+            emit(out)
     except Exception as ex:  # noqa: BLE001 - raising is always acceptable
         res["outcome"] = "raised"
         res["exception"] = f"{type(ex).__name__}: {str(ex)[:120]}"
